@@ -171,6 +171,7 @@ func recSign(args []string) {
 	out := fs.String("out", "", "")
 	from := fs.String("from", "", "re-record the event of line -line of this file")
 	line := fs.Int("line", 0, "")
+	first := fs.Int("first", 0, "re-record the lines first..line in order (0: only line)")
 	fs.Parse(args)
 	f, err := os.Create(*out)
 	if err != nil {
@@ -188,7 +189,7 @@ func recSign(args []string) {
 		sc := bufio.NewScanner(in)
 		sc.Buffer(make([]byte, 1<<20), 1<<24)
 		for k := 1; sc.Scan(); k++ {
-			if k != *line {
+			if k > *line || k < *line && (*first == 0 || k < *first) {
 				continue
 			}
 			var e struct {
